@@ -4,8 +4,9 @@ HOOKS = {
               'dependency on /repo and #[path]-includes /repo/src/rapidquilt/{cmd.rs,apply/,arena/}, so every cargo build of the '
               'harness (run by every check) compiles /repo\'s current working tree with the hooks on',
     'baseline_off_cmd': 'cd /repo && cargo test --workspace --no-fail-fast --offline',
-    'source_commits': [],
-    'add_only': True,
+    'note_add_only': 'all hook code is new and cfg-guarded (src/rapidquilt/verif.rs, fault_point/sched_point calls, two pub re-exports); exactly one existing line was rewritten to host a call: `.and_then(|_| File::create(&real_path))` in save_backup_file became a block with the same expression; one cfg-guarded hook line was later touched by the fix commit 08de233 (error context)',
+    'source_commits': ['ca1bb5c', 'd1463e7', 'e911188'],
+    'add_only': False,
 }
 ENGINES = [
     {'name': 'rqharness', 'path': 'harness/', 'serves_properties': ['C02', 'C03', 'C04', 'C05', 'C06', 'C07', 'C08', 'C09', 'C10', 'C11', 'C12', 'C13', 'C14', 'C15', 'C16', 'C17', 'C18', 'C19', 'C20'],
